@@ -15,16 +15,16 @@ memory):
               the same for its files)
 Conformance of the assumed contract: the same table is read and re-written by the real library + installed cfitsio
 (native) and the resulting file must equal the model's file BYTE FOR BYTE; a disagreement aborts the check (exit 2).
-NOT covered: the memory back end (write_fits_mem / read_fits_mem wrappers), the shipped reference files, cfitsio's own
+Memory back end: write_fits_mem / read_fits_mem extracted too (same model).  NOT covered: the shipped reference files, cfitsio's own
 byte-level encoding beyond the comparison above."""
 import sys, os, time, json, itertools, random, multiprocessing as mp
 sys.path.insert(0, os.path.dirname(os.path.dirname(os.path.abspath(__file__))))
 from fractions import Fraction as Fr
-from tools import vlib, units, gotoexec as G, e3lib as E, fitshooks as H
+from tools import vlib, units, gotoexec as G, e3lib as E, fitshooks as H, tableprog as T
 from specs import fitsmodel as M
 import c14_exact as X14
 import c07
-PROG = None; CONSTS = None; PROBE = None
+PROG = None; CONSTS = None; PROBE = None; TPROG = None
 FLT_MAX = Fr(2**24 - 1, 1) * Fr(2)**104; DENORM = Fr(1, 2**149)
 SPECIAL = ["nan", "inf", "-inf", "-0", DENORM, -DENORM, FLT_MAX, -FLT_MAX, Fr(0), Fr(1, 3 * 2**20).limit_denominator(2**30)]
 
@@ -187,6 +187,26 @@ def run_case(args):
             it2.call("write_fits_core", [1])
             if not it2.globals["vp_thrown"].cells[0]: written = (written, W2.f)
         except G.ExecError: pass
+        # memory back end: write_fits_mem -> buffer -> read_fits_mem into a fresh object (unified unit, tools/tableprog.py)
+        if TPROG is not None:
+            tp, tparams = TPROG; disk = T.Disk(); w0 = written[0] if isinstance(written, tuple) else written
+            im, alm = T.new_object(tp, tparams, CONSTS, disk, X14.RatDom()); load_table(im, desc)
+            ob_ = im.array("out_buf", [None]); os_ = im.array("out_size", [None])
+            try: im.call("write_fits_mem", [G.Ptr(ob_, 0), G.Ptr(os_, 0)]); merr = None
+            except G.ExecError as ex: merr = "%s: %s" % (type(ex).__name__, ex)
+            if merr or im.globals["vp_thrown"].cells[0]: ob("memory back end: writing succeeds", False, merr or "write_fits_mem threw")
+            else:
+                buf = ob_.cells[0]; size = os_.cells[0]; fmem = disk.files.get(("mem", id(buf.obj)))
+                same_bytes = fmem is not None and fmem.to_bytes() == w0.to_bytes() and size == len(w0.to_bytes())
+                ob("memory back end: the buffer holds the same file as the disk back end writes, with its size reported", same_bytes, "memory file differs from the disk file or size %s != %s" % (size, len(w0.to_bytes())))
+                i2m, al2m = T.new_object(tp, tparams, CONSTS, disk, X14.RatDom())
+                try: retm = i2m.call("read_fits_mem", [buf, size]); merr = None
+                except G.ExecError as ex: retm = None; merr = "%s: %s" % (type(ex).__name__, ex)
+                if merr or i2m.globals["vp_thrown"].cells[0] or not retm: ob("memory back end: what was written can be read back", False, merr or "read_fits_mem reported failure")
+                else:
+                    wbad, tm = table_of(i2m); bad = list(wbad)
+                    if tm is not None and (tm["order"] != desc["orders"] or tm.get("knots") != desc["knots"] or tm.get("coefficients") != desc["coeffs"] or tm.get("extents") != [list(e) for e in desc["extents"]] or [k for k, v in tm.get("aux", [])] != [k for k, v in desc["aux"]]): bad.append("content differs from the table written")
+                    ob("memory back end: reading back yields an identical table", not bad, "; ".join(bad))
         # legacy files from the independent writer: no EXTENTS / PERIOD (default extents = the fully supported range, as fit() assigns them), single ORDER key
         variants = [("without EXTENTS and PERIOD", dict(extents=None, periods=None, single_order=False))]
         if len(set(desc["orders"])) == 1: variants.append(("with a single ORDER key", dict(extents=desc["extents"], periods=desc["periods"], single_order=True)))
@@ -217,7 +237,8 @@ def run_case(args):
 def native_rewrite(args):
     src, dst = args
     rc, o, w = vlib.sh("timeout -s KILL 60 %s rewrite %s %s" % (PROBE, src, dst), timeout=120)
-    return rc, o
+    rc2, o2, w2 = vlib.sh("timeout -s KILL 60 %s rewritemem %s %s.mem" % (PROBE, src, dst), timeout=120)
+    return rc, o + o2
 
 def main():
     global PROG, CONSTS, PROBE
@@ -228,6 +249,10 @@ def main():
     PROG = (prog, {f.name: E.param_names(f.header, f.name) for f in fs.values()})
     for k in ("write_fits_core", "read_fits_core", "read_fits_core_wrapper"):
         if k in fs: rep.functions.append(fs[k].info())
+    global TPROG
+    tp, tparams, tfns = T.build(vlib.workdir()); TPROG = (tp, tparams)
+    for k in ("write_fits_mem", "read_fits_mem"):
+        if k in tfns: rep.functions.append(tfns[k].info())
     cases = tables(thorough); t0 = time.time()
     with mp.Pool(min(vlib.NCORES, 16)) as pool: res = pool.map(run_case, cases, chunksize=1)
     flat = [o for r, _ in res for o in r]
@@ -252,7 +277,8 @@ def main():
         if a != b:
             pos = next((i for i in range(min(len(a), len(b))) if a[i] != b[i]), min(len(a), len(b)))
             confbad.append((tag, "files differ at byte %d (card %d of its header block): model %r, cfitsio %r" % (pos, (pos % 2880) // 80, a[pos - pos % 80:pos - pos % 80 + 80], b[pos - pos % 80:pos - pos % 80 + 80])))
-        elif '"equal": true' not in o and "nan" not in cases[k][1]["coeffs"]: confbad.append((tag, "operator== of the library reports the re-read table different: " + o[-200:]))
+        elif not os.path.exists(dst + ".mem") or open(dst + ".mem", "rb").read() != b: confbad.append((tag, "the buffer produced by the real write_fits_mem differs from the file written by write_fits"))
+        elif o.count('"equal": true') != 2 and "nan" not in cases[k][1]["coeffs"]: confbad.append((tag, "operator== of the library reports the re-read table different: " + o[-200:]))
     rep.add_group("conformance of the cfitsio model (writer side): the file written by the extracted writer is read and re-written both by the extracted code over the model and by the real library over the installed cfitsio: the two second-generation files are identical byte for byte", len(jobs), len(jobs) - len(confbad), time.time() - t1, bounded="the %d explored tables" % len(jobs), name="C06-model-conformance")
     if confbad:
         for c in confbad[:10]: print("MODEL-MISMATCH %s :: %s" % c)
@@ -270,7 +296,7 @@ def main():
     rep.extra["evaluations"] = len(cases); rep.extra["distinct_nontrivial"] = len(cases)
     rep.extra["rule"] = "one evaluation = one table written by the extracted writer, decoded by an independent reader of the documented layout, read back by the extracted reader and compared field by field; all tables are distinct and non-trivial"
     rep.assume("cfitsio is an ASSUMED CONTRACT (specs/fitsmodel.py); on the writer side its output is compared byte for byte with what the real library + installed cfitsio write for the same table, on the reader side see C07's conformance obligations",
-               "BOUNDED: enumerated tables; disk back end only (write_fits_mem / read_fits_mem and the file open/close wrappers are not extracted); the shipped reference files are not decoded here (the repository's own tests read them)",
+               "BOUNDED: enumerated tables; the memory back end is covered through the extracted write_fits_mem / read_fits_mem over the same model (the buffer's bytes are the model file's); the shipped reference files are not decoded here (the repository's own tests read them)",
                "operator== is not extracted: equality is judged field by field by the check (the library's operator== is run natively on the re-read table for tables without NaN)",
                "PERIODn values are written by cfitsio with 15 significant digits: exact only for the values explored (0, 6.25)")
     rep.trust("tools/gotoexec.py", "goto-cc front end", "tools/extract.py rules", "specs/fitsmodel.py")
